@@ -381,3 +381,19 @@ pub(crate) fn note_ctx_call(plane: usize, complexity: usize, n: bool) {
 pub fn take_ctx_log() -> Vec<u32> {
     std::mem::take(&mut *CTX_LOG.lock().unwrap())
 }
+
+/// sub-block mode bookkeeping in the same log: `[5, mbx]` at the start of a macroblock header,
+/// `[3, top, left, mode]` per sub-block mode read of a B_PRED macroblock, `[4, mode]` for the
+/// sub-block mode a 16x16 mode implies
+pub(crate) fn note_mb_header(mbx: usize) {
+    CTX_LOG.lock().unwrap().extend_from_slice(&[5, mbx as u32]);
+}
+pub(crate) fn note_bmode(top: u32, left: u32, mode: u32) {
+    CTX_LOG.lock().unwrap().extend_from_slice(&[3, top, left, mode]);
+}
+pub(crate) fn note_implied_mode(mode: u32) {
+    CTX_LOG.lock().unwrap().extend_from_slice(&[4, mode]);
+}
+pub fn intra_mode_default() -> u32 {
+    crate::vp8::verif_intra_mode_default()
+}
